@@ -58,6 +58,29 @@ theorem quadLoop_noTol (pi c0 c1 : K) (h0 : pi < c0) (h1 : pi < c1) :
     intro d
     cases d <;> simp [quadLoop, f0, f1, ih]
 
+/-! ### Sums that are not below the threshold on both diagonals (NaN, or `π + 1.49e-8`: defects repaired by /repo `078e20f`, `9d5c866`) -/
+
+omit [Field K] [LinearOrder K] [IsStrictOrderedRing K] in
+/-- A pair both of whose diagonals the decision flips never comes to rest — any scalar type. -/
+theorem quadLoop_both_flip {α : Type} (flip : α → Bool) (c0 c1 : α) (h0 : flip c0 = true) (h1 : flip c1 = true) :
+    ∀ (fuel : Nat) (d : Bool), quadLoop flip c0 c1 fuel d = none := by
+  intro fuel
+  induction fuel with
+  | zero => intro d; rfl
+  | succ n ih => intro d; cases d <;> simp [quadLoop, h0, h1, ih]
+
+omit [Field K] [LinearOrder K] [IsStrictOrderedRing K] in
+/-- A pair one of whose diagonals the decision leaves alone comes to rest after at most one flip. -/
+theorem quadLoop_rest {α : Type} (flip : α → Bool) (c0 c1 : α) (h : flip c0 = false ∨ flip c1 = false)
+    (d : Bool) (fuel : Nat) : ∃ r, quadLoop flip c0 c1 (fuel + 2) d = some r := by
+  cases d <;> by_cases f0 : flip c0 = true <;> by_cases f1 : flip c1 = true <;>
+    rcases h with h | h <;> simp_all [quadLoop]
+
+omit [Field K] [LinearOrder K] [IsStrictOrderedRing K] in
+theorem wantsFlip_of_not_lt {α : Type} [LT α] [DecidableLT α] [Add α] (pi tol s : α) (h : ¬ s < pi + tol) :
+    wantsFlip pi tol s = true := by
+  simp [wantsFlip, h]
+
 end Quad
 
 /-! ## Loops with a strictly decreasing measure -/
